@@ -16,6 +16,7 @@ destination array keep decoding to the same lists while later iterations allocat
     | .ok G' => ∃ g', (transformTop zero fuel' t g m).2 = .ok g' ∧ decodeGeom (transformTop …).1 fuel g' = some G'
     | .error e => (transformTop zero fuel' t g m).2 = .error e
 -/
+set_option linter.unusedSimpArgs false
 namespace GeomV.C10
 open GeomV Mem
 
@@ -23,8 +24,15 @@ variable {E α : Type}
 
 /-- the types whose `Transform` is one loop over a `[]Point` (or no loop) -/
 def Mem.flat : MGeom α → Bool
-  | .point _ | .multiPoint _ | .lineString _ => true
+  | .point _ | .multiPoint _ | .lineString _ | .polygon _ | .bounds _ | .multiLineString _ => true
   | _ => false
+
+/-- the ring `(*Bounds).Transform` builds -/
+abbrev boundsRing4 (mn mx : Pt α) : List (Pt α) := [mn, ⟨mx.x, mn.y⟩, mx, ⟨mn.x, mx.y⟩]
+
+/-- memory after the composite literal of `(*Bounds).Transform`: two new arrays -/
+abbrev boundsMem (m : Mem α) (mn mx : Pt α) : Mem α :=
+  { m with pts := m.pts ++ [boundsRing4 mn mx], paths := m.paths ++ [[(⟨m.pts.length, 0, 4⟩ : Slice)]] }
 
 /-- **C10_mem_refines_partial** (ties "leaves the input untouched" to "same type and nesting / i-th vertex /
 error"): for every memory, every Point / MultiPoint / LineString value `g` in it that reads as the functional
@@ -77,6 +85,80 @@ theorem C10_mem_refines_partial (zero : Pt α) (fuel : Nat) (t : TF E α) (g : M
     | error e =>
       have := h2 e hr
       generalize lineStringM zero t s m = r at this
+      obtain ⟨m', res⟩ := r
+      simp at this; subst this
+      simp
+  | polygon s =>
+    simp only [decodeGeom, bind, Option.bind, pure] at hd
+    cases h1 : readArr m.paths s with
+    | none => simp [h1] at hd
+    | some hs =>
+      simp only [h1] at hd
+      cases h2 : hs.mapM (readArr m.pts) with
+      | none => simp [h2] at hd
+      | some rs =>
+        simp [h2] at hd; subst hd
+        simp only [transform, transformS, polygonT, transformTop, transformM]
+        cases hr : ringsT t rs with
+        | ok qss =>
+          obtain ⟨hdr, hs', e1, e2, e3⟩ := polygonM_decodes zero t s m hs rs qss h1 h2 hr
+          generalize polygonM zero t s m = r at e1 e2 e3
+          obtain ⟨m', res⟩ := r
+          simp at e1; subst e1
+          simp at e2 e3
+          simp [decodeGeom, e2, e3, bind, Option.bind]
+        | error e =>
+          have := polygonM_failure zero t s m hs rs e h1 h2 hr
+          generalize polygonM zero t s m = r at this
+          obtain ⟨m', res⟩ := r
+          simp at this; subst this
+          simp
+  | multiLineString s =>
+    simp only [decodeGeom, bind, Option.bind, pure] at hd
+    cases h1 : readArr m.paths s with
+    | none => simp [h1] at hd
+    | some hs =>
+      simp only [h1] at hd
+      cases h2 : hs.mapM (readArr m.pts) with
+      | none => simp [h2] at hd
+      | some rs =>
+        simp [h2] at hd; subst hd
+        simp only [transform, transformS, multiLineLoop_eq, ← ringsT_eq, transformTop, transformM]
+        cases hr : ringsT t rs with
+        | ok qss =>
+          obtain ⟨hdr, hs', e1, e2, e3⟩ := multiLineM_decodes zero t s m hs rs qss h1 h2 hr
+          generalize multiLineM zero t s m = r at e1 e2 e3
+          obtain ⟨m', res⟩ := r
+          simp at e1; subst e1
+          simp at e2 e3
+          simp [decodeGeom, e2, e3, bind, Option.bind]
+        | error e =>
+          have := multiLineM_failure zero t s m hs rs e h1 h2 hr
+          generalize multiLineM zero t s m = r at this
+          obtain ⟨m', res⟩ := r
+          simp at this; subst this
+          simp
+  | bounds a =>
+    simp only [decodeGeom, Option.map_eq_some_iff] at hd
+    obtain ⟨⟨mn, mx⟩, hb, rfl⟩ := hd
+    -- the literal `Polygon{{b.Min, {b.Max.X, b.Min.Y}, b.Max, {b.Min.X, b.Max.Y}}}` in memory
+    have h1 : readArr (boundsMem m mn mx).paths ⟨m.paths.length, 0, 1⟩ = some [⟨m.pts.length, 0, 4⟩] := by
+      simp [readArr, boundsMem]
+    have h2 : [(⟨m.pts.length, 0, 4⟩ : Slice)].mapM (readArr (boundsMem m mn mx).pts) =
+        some [boundsRing4 mn mx] := by
+      simp [readArr, boundsMem, boundsRing4, List.mapM_cons, bind, Option.bind, pure]
+    simp only [transform, transformS, boundsT, polygonT, transformTop, transformM, boundsM, hb, aAlloc]
+    cases hr : ringsT t [boundsRing4 mn mx] with
+    | ok qss =>
+      obtain ⟨hdr, hs', e1, e2, e3⟩ := polygonM_decodes zero t _ _ _ _ qss h1 h2 hr
+      generalize polygonM zero t ⟨m.paths.length, 0, 1⟩ (boundsMem m mn mx) = r at e1 e2 e3 ⊢
+      obtain ⟨m', res⟩ := r
+      simp at e1; subst e1
+      simp at e2 e3
+      simp [decodeGeom, e2, e3, bind, Option.bind]
+    | error e =>
+      have := polygonM_failure zero t _ _ _ _ e h1 h2 hr
+      generalize polygonM zero t ⟨m.paths.length, 0, 1⟩ (boundsMem m mn mx) = r at this ⊢
       obtain ⟨m', res⟩ := r
       simp at this; subst this
       simp
